@@ -608,12 +608,15 @@ var evalScaleCases = []*EvalScaleCase{
 	// selectors over nested literals
 	{Close: "[0]", Atom: "1", AtomOpen: "[", AtomClose: "]"}, {Close: ".a", Atom: "1", AtomOpen: "{a: ", AtomClose: "}"}, {Close: "[1]", Atom: "1", AtomOpen: "[1: ", AtomClose: "]"},
 	{Close: ".a[0]", Atom: "1", AtomOpen: "{a: [", AtomClose: "]}"},
+	// nesting in the index / key / position operand of a selector
+	{Open: "[0][", Close: "]", Atom: "0"}, {Open: "[0, 1][", Close: "]", Atom: "1"}, {Open: "[0: 0][", Close: "]", Atom: "0"}, {Open: "get([0], ", Close: ", 0)", Atom: "0"},
+	{Open: "get([0: 0], ", Close: ", 0)", Atom: "0"}, {Open: "(isset([0: 0], ", Close: ") ? 0 : 1)", Atom: "0"}, {Open: "[\"a\": \"a\"][", Close: "]", Atom: "\"a\""},
 	// method-call notation and dynamic calls
 	{Close: ".abs()", Atom: "(1)"}, {Close: ".hsub(1)", Atom: "(1)"}, {Close: ".tr(1)", Atom: "(1)"}, {Open: "(1).hsub(", Close: ")", Atom: "1"}, {Close: ".string()", Atom: "(1)"},
 }
 
 func TestC12(t *testing.T) {
-	R.Rule = "source strings up to 256 bytes (quick) / 4 KiB (thorough): random bytes, random runes, token soup from the lexicon, grammar-aware edits (insert / delete / duplicate / swap) of valid programs taken from a seed list and from the program generator, bracket nests to depth 12, valid programs; environments: none, Go host values built by reflection (structs, maps, slices, pointers, interface parts, nil parts, unsupported kinds), or one of the fixed hostile host values (cyclic maps / slices / struct rings, self-referential pointers, recursive Go types with nil links, nesting beyond conv's limit, typed nils, unsupported kinds), also as run-time environment of a Callable compiled against something else; accepted sources are also passed to Debug and Eval with blanks / line breaks before and after them; every call of Eval, Compile (two back ends), the Callable (same environment, a mismatching map, nil, a number, an unsupported struct) and Debug must return without panicking, with a value or an error, within 5 s (a slower call is repeated three times and reported only if slow every time; a call that does not return within 180 s aborts the run as a violation); scaling class: compile time against repetition count 2..60 for 45 nest, chain and prefix shapes must not grow by more than 2.5x per two levels over four consecutive steps from depth 12 on (or 1.7x over five steps from depth 30 on); eval-scaling class: 60 closed accepted shapes (nested / chained conditionals, short-circuit operators, user lazy functions, defaults, strict and host calls, literals, selectors, method notation) compiled and evaluated on each of the four back ends at repetition counts 2..60, compile time (whole pipeline) and evaluation time under the same growth rule; capacity class: sources of 60-100 KB at the VM's encoding limits (conditionals whose code crosses the 16-bit jump range; thorough: further wide / deep shapes) compiled and invoked twice through the public API on both facade back ends; non-trivial = input accepted, or rejected with more than one token"
+	R.Rule = "source strings up to 256 bytes (quick) / 4 KiB (thorough): random bytes, random runes, token soup from the lexicon, grammar-aware edits (insert / delete / duplicate / swap) of valid programs taken from a seed list and from the program generator, bracket nests to depth 12, valid programs; environments: none, Go host values built by reflection (structs, maps, slices, pointers, interface parts, nil parts, unsupported kinds), or one of the fixed hostile host values (cyclic maps / slices / struct rings, self-referential pointers, recursive Go types with nil links, nesting beyond conv's limit, typed nils, unsupported kinds), also as run-time environment of a Callable compiled against something else; accepted sources are also passed to Debug and Eval with blanks / line breaks before and after them; every call of Eval, Compile (two back ends), the Callable (same environment, a mismatching map, nil, a number, an unsupported struct) and Debug must return without panicking, with a value or an error, within 5 s (a slower call is repeated three times and reported only if slow every time; a call that does not return within 180 s aborts the run as a violation); scaling class: compile time against repetition count 2..60 for 45 nest, chain and prefix shapes must not grow by more than 2.5x per two levels over four consecutive steps from depth 12 on (or 1.7x over five steps from depth 30 on); eval-scaling class: 69 closed accepted shapes (nested / chained conditionals, short-circuit operators, user lazy functions, defaults, strict and host calls, literals, selectors, nests in the index / key operand of selectors, method notation) compiled and evaluated on each of the four back ends at repetition counts 2..60, compile time (whole pipeline) and evaluation time under the same growth rule; capacity class: sources of 60-100 KB at the VM's encoding limits (conditionals whose code crosses the 16-bit jump range; thorough: further wide / deep shapes) compiled and invoked twice through the public API on both facade back ends; non-trivial = input accepted, or rejected with more than one token"
 	R.Assume = []string{"termination is only observed under the stated budgets; Go stack exhaustion by inputs beyond 4 KiB is not probed"}
 	reportKnown(t, "C12")
 	runRegress(t, "C12")
